@@ -12,7 +12,8 @@
    [shift_asis] is `shift_edgelit` as written in the code: for a negative literal
    it lands two variables too far (DESIGN D31); [shift_spec] is the intended copy.
    The pipe gadget deletes position nx from its running list when it reaches the last
-   clause, which raises IndexError when nz = 1; networkx raises NetworkXError for d = v.
+   clause, which raised IndexError when nz = 1, and networkx raised NetworkXError for d = v;
+   both are rejected with ValueError since commit cc7a963 ([validated]).
    Abstracted: description/header, labels, the random choice of the graph. *)
 From Coq Require Import ZArith List Bool.
 From Cnfgen Require Import Sem Comb Linear IR C03_Util.
@@ -80,10 +81,13 @@ Definition pitfall_cnf (fixed : bool) (n : Z) (E : list (Z * Z)) (ny nz k : Z) :
 Definition edges_ok (n : Z) (E : list (Z * Z)) : bool :=
   forallb (fun e => (1 <=? fst e) && (fst e <=? n) && (1 <=? snd e) && (snd e <=? n)) E.
 
-Definition pitfall_formula (fixed : bool) (v d ny nz k : Z) (E : list (Z * Z)) : c3res :=
+(* [validated] = the argument checks of the current code (commit cc7a963: d >= v and nz < 2 are
+   rejected with ValueError); [validated = false] is the code before that commit, where d = v
+   reached networkx (NetworkXError) and nz = 1 crashed in the pipe gadget (IndexError). *)
+Definition pitfall_formula (fixed validated : bool) (v d ny nz k : Z) (E : list (Z * Z)) : c3res :=
   if (v <? 1) || (d <? 1) || (ny <? 1) || (nz <? 1) || (k <? 1) then C3Err C3ValueError
   else if negb (k mod 2 =? 0) then C3Err C3ValueError
   else if (d >? v) || (v * d mod 2 =? 1) then C3Err C3ValueError
-  else if d =? v then C3Err C3NetworkXError
-  else if nz =? 1 then C3Err C3IndexError
+  else if d =? v then C3Err (if validated then C3ValueError else C3NetworkXError)
+  else if nz =? 1 then C3Err (if validated then C3ValueError else C3IndexError)
   else C3Ok (pit_numvar (len E) ny nz k) (clauses_ir (pitfall_cnf fixed v E ny nz k)).
